@@ -253,7 +253,8 @@ def load_known():
 
 
 def write_evidence(prop, tier, seed, results, wall, violations, known_hits, extra_cov=None, assumptions=None):
-    os.makedirs(os.path.join(VERIF, "evidence"), exist_ok=True)
+    evdir = os.environ.get("VERIF_EVIDENCE_DIR") or os.path.join(VERIF, "evidence")
+    os.makedirs(evdir, exist_ok=True)
     n_inst = sum(len(r.instances) for r in results)
     n_find = sum(len(r.findings) for r in results)
     distinct = len({json.dumps(i, sort_keys=True) for r in results for i in r.instances})
@@ -292,6 +293,6 @@ def write_evidence(prop, tier, seed, results, wall, violations, known_hits, extr
         "wall_s": round(wall, 2),
         "violations": violations,
     }
-    with open(os.path.join(VERIF, "evidence", prop + ".json"), "w") as fh:
+    with open(os.path.join(evdir, prop + ".json"), "w") as fh:
         json.dump(ev, fh, indent=1)
     return ev
